@@ -374,15 +374,24 @@ def rule_R14_visibility(ct, log):
     return out
 
 
+class Pat(list):
+    """pattern token list; .forbid = tokens that must not occur in what a wildcard swallows"""
+    forbid = ()
+
+
 def parse_subst(line):
-    m = re.match(r"\s*`(.*)`\s*==>\s*`(.*)`\s*$", line)
+    m = re.match(r"\s*`(.*)`\s*==>\s*`(.*?)`\s*(?:::\s*FORBID\s+(.*))?$", line)
     if not m:
         raise ExtractError(f"bad SUBST directive: {line}")
     a = code_tokens(tokenize(m.group(1)))
     b = code_tokens(tokenize(m.group(2)))
     if not a:
         raise ExtractError("empty SUBST pattern")
-    return ([t.text for t in a], b, line.strip())
+    pat = Pat(t.text for t in a)
+    if m.group(3):
+        # an abstraction rule: the swallowed text must not touch the state the contract is about
+        pat.forbid = tuple(m.group(3).split())
+    return (pat, b, line.strip())
 
 
 def _match_at(ct, i, pat):
@@ -441,6 +450,10 @@ def apply_subst(ct, subst, log):
             m = _match_at(ct, i, pat)
             if m:
                 end, binds = m
+                for toks_ in binds.values():
+                    bad = [t.text for t in toks_ if t.text in getattr(pat, "forbid", ())]
+                    if bad:
+                        raise ExtractError(f"SUBST `{desc}`: the abstracted text contains forbidden token(s) {sorted(set(bad))}")
                 q = 0
                 while q < len(rep):
                     r = rep[q]
